@@ -81,7 +81,7 @@ RxAllowed ==
             THEN {RxObs(0, 16, 0, <<>>, <<ErrResponse(RTr, Fields(o).type, EBUSY, Fields(o).sq, Fields(o).addr, <<0, 0>>)>>)}
             ELSE {<<-9>>}
        ELSE IF Len(o) > Cfg.cap
-       THEN IF Len(o) >= 16 /\ Classes(o) \cap {C_ENC, C_HDCRC} = {} /\ IsRequest(o)
+       THEN IF Cfg.cap >= 16 /\ Len(o) >= 16 /\ Classes(o) \cap {C_ENC, C_HDCRC} = {} /\ IsRequest(o)
             THEN {RxObs(0, 12, 1, <<>>, <<ErrResponse(RTr, Fields(o).type, code, Fields(o).sq, Fields(o).addr, <<0, Cfg.cap>>)>>)
                     : code \in {ERXOVERFLOW}}
                  \cup {RxObs(0, 12, 1, <<>>, <<FrameOctets(RespType(Fields(o).type), Opts(RTr, FALSE, FALSE), ERXOVERFLOW,
@@ -102,7 +102,9 @@ RxAllowed ==
 
 RxOK == LET A == RxAllowed
             u == Unframe(RTr, WireIn)
-        IN /\ (A = {<<-9>>}) \/ (e.o \in A)
+           \* where the reply is not specified (marker -9) the run must still be resource-exact and touch no memory backend
+           balanced == e.o[1] = 0 /\ e.o[4] = e.o[3] /\ e.o[3] \in {0, 1} /\ e.o[5] = 0 /\ e.o[6] = 0 /\ e.o[7] = 0
+        IN /\ IF A = {<<-9>>} THEN balanced ELSE e.o \in A
            /\ (MustFail /\ u.st = "ok" /\ Len(u.frame) <= Cfg.cap => C_OK \notin Classes(u.frame))
 
 (* C07: a frame the generator marked as a corruption inside the guaranteed family must not classify as ok -
